@@ -43,6 +43,32 @@ CHECKS["C04"] = (
     "4 C04",
 )
 
+_E = "bounded-exhaustive enumeration executed on the real implementation against an independent reference model"
+CHECKS["C01"] = ("enumx", "model_checking", "small-scope exhaustive input enumeration (all 1-way and 2-way field-value combinations, all shapes 0..3, all put/read orders) through the real libraries, v2 and v1 codecs",
+    "Every molecule/ensemble of a small-scope grammar (23 field dimensions incl. all enum members, None/empty/non-ASCII labels, nested attributes, NaN/inf/non-float32-exact floats, 0..3 atoms/bonds/conformers; every 1-way value and every 2-way pair; 800 put/read sequences) is written to and read from real MoleculeLibrary/ConformerLibrary files in both encodings and compared field by field with a snapshot taken by the harness's own walker.",
+    "Field alphabets are finite (4 elements in quick, all 119 in thorough); pairwise (thorough: 3-way inside the atom/bond record) rather than full product; msgpack data model (list==tuple), float32 comparison as the property states.", "4 C01")
+CHECKS["C09"] = ("enumx", "model_checking", "exhaustive configuration-matrix enumeration of every public load/dump entry point against the class-level codec",
+    "The full matrix {load, loads, load_all, loads_all, dump, dumps} x formats (incl. unsupported) x source/target kinds (str path, Path, open stream, StringIO, string) x output types x name override x parser/writer names x file modes is executed on bundled and generated files; each cell is compared with the corresponding class method by a structural snapshot, or must raise the documented exception.",
+    "openbabel is absent: its cells are only checked for the documented error; files are the bundled ones plus generated multi-block files (thorough: every bundled mol2).", "4 C09")
+CHECKS["C10"] = ("faultx", "fault_enumeration", "exhaustive single-fault enumeration (every truncation point, line deletion/duplication, token deletion/garbling/insertion, count +-1, section rename; thorough: all fault pairs on small texts) of mol2/xyz texts",
+    "For every base text every structural single fault is generated (thorough: all pairs on the small texts, ~5x10^5 texts) and handed to the real readers under a step budget and CPU watchdog; the result must be an exception or an order-preserving list of complete molecules of the undamaged file. A strict independent reference reader decides whether a damaged text is still a well-formed other file (then only termination is demanded).",
+    "Only structural damage is generated (edits yielding another well-formed file are not damage), except byte truncation of the last record which the property names; one inherent xyz case is a recorded known finding.", "4 C10")
+CHECKS["C11"] = ("enumx", "model_checking", "exhaustive enumeration of finite vector/axis/angle lattices incl. the antiparallel neighbourhood and every answer of the RNG seam, every rotatable bond of the test molecules, 6 start poses",
+    "All 78x78 vector pairs (+ antiparallel neighbourhoods down to 1e-12 and exact), 78 axes x 13 angles, every acyclic bond x (a,d) choice x 12 targets, translate/transform/substructure/ensemble operations and alignment from 6 poses are executed on the real code; oracles are independent float64 numerics (orthogonality, det, mapped direction, distance matrices, signed volumes, bit-identity outside selections, dihedral == target, returned RMSD == achieved, pose independence). numpy.random is replaced by every answer of a finite menu.",
+    "Numeric claim holds on the lattice points (seed-rotated), not on all reals; tolerances derived from magnitudes (1e-9 rel. for float64 paths).", "4 C11")
+CHECKS["C12"] = ("enumx", "model_checking", "exhaustive enumeration of small fragments x attachment atoms x poses x options x charge/mult/override products x (anti)parallel attachment vectors x RNG-seam answers, iterated joins through the real combine loop",
+    "Every pair of small tree/ring fragments with 1..3 attachment points, 6 poses, dist/optimize_rotation options, the full charge/mult/override product, exactly (anti)parallel attachment vectors with every RNG answer, and the real _ml_assemble loop for every order of core attachment points are executed; oracle = atom/bond tables, per-fragment congruence (distances + signed volumes), new bond length/direction, charge/mult rule, inputs untouched, identical result under different hidden random state.",
+    "Fragments up to 4 heavy atoms; lattice coordinates; quick runs 2 of 6 option combinations per (A,B,pose) rotated so each pair meets all 6.", "4 C12")
+CHECKS["C13"] = ("enumx", "model_checking", "every labelled fragment of every bundled CDXML x finite menu of metamorphic rewrites (mirror, translations, permutations, renumberings; thorough: all pairs) with an independent ElementTree oracle",
+    "All 116 labelled fragments x rewrites are parsed by the real CDXML parser (twice in process, once in a second interpreter) and compared with an independent ElementTree walk (constitution, isotopes, charges, radicals, attachment points), absolute anchors taken from the drawing (xy orientation, wedge z order, handedness of single-wedge centres), sign inversion of non-planar centres under mirroring, bit-identical determinism and stable label resolution.",
+    "Only the bundled drawings and their rewrites; hapto centres excluded as the property states; planarity threshold 0.10 on normalised triple products.", "4 C13")
+CHECKS["C14"] = ("seqx", "model_checking", "explicit-state BFS over ensemble operation histories (15 constructors, append/extend, collective transformations, writes through conformers, stepwise/nested iterators, dumps, library storage) against a numpy reference model",
+    "Every history up to depth 6 (thorough 8..9) is executed on real ConformerEnsemble objects with state deduplication on a value-free canonical form; after every step rectangularity, view semantics (reads equal row i, a write changes exactly that row), iteration sequences of 2..3 concurrent iterators, and dump/serialise round trips are compared with the reference.",
+    "Values stored by constructors/transformations are C06/C11 territory and not asserted here; ensembles of 1..3 atoms, up to 4..5 conformers.", "4 C14")
+CHECKS["C16"] = ("enumx", "model_checking", "exhaustive enumeration of a local-environment grammar (centre x charge x spin x hint x 0..3 neighbours x bond types x poses) + all bundled CDXML fragments, each called once and twice",
+    "Every environment (8 centres x 3 charges x 3 spins / hints 0..3, neighbours from {C,H,F,metal} x 5..6 bond types pairwise (thorough: full product) x 5..8 poses incl. bonds along +-z) plus hadd_test.mol2 and all 123 CDXML fragments goes through the real add_implicit_hydrogens; oracle = the property's count formula with independent tables, frame conditions (nothing else changes), every new H bonded once at r_cov sum, finite, pointing away; idempotence.",
+    "Distance tolerance 1e-3 A (the routine's 4-digit constants); direction clause judged against either centroid definition; hints > 3 and explicit-atom calls not enumerated.", "4 C16")
+
 PENDING = {
 }
 
